@@ -19,7 +19,7 @@ func init() {
 		StubParts:  []string{"GenerationEvaluator and TrialRunObserver (scripted, logging)", "wall clock (fake clock for the sequential executor; real, unobserved clock for the parallel one)", "goroutine choice in parallel runs"},
 		FaultKinds: []string{"fault.eval-error", "fault.cancel@eval-entry", "fault.cancel@eval-mid(timer)", "fault.cancel@eval-exit", "fault.cancel@TrialRunStarted", "fault.cancel@EpochEvaluated", "fault.cancel@TrialRunFinished", "fault.cancel@epoch.prepared", "fault.cancel@offspring-k", "fault.cancel@speciate.begin"},
 		Assumes:    []string{"after a cancellation the observer may still learn that the next trial started (the run notices the cancellation at the next generation check); that is a prefix of the ideal sequence and accepted"},
-		ProbeNames: []string{"probe.solved_early", "probe.solved_last_generation", "probe.unsolved_trial", "probe.no_observer", "probe.parallel", "probe.fault_free_run", "probe.nil_after_cancel_protocol_complete", "probe.single_fault_sweep", "probe.multi_fault", "probe.preallocated_trials"},
+		ProbeNames: []string{"probe.solved_early", "probe.solved_last_generation", "probe.unsolved_trial", "probe.no_observer", "probe.parallel", "probe.fault_free_run", "probe.nil_after_cancel_protocol_complete", "probe.single_fault_sweep", "probe.multi_fault", "probe.preallocated_trials", "probe.zero_generations"},
 	})
 }
 
@@ -143,7 +143,13 @@ func checkProtocol(c *RunCtx, s *ExpSim) {
 		if s.SolvedAt[t] >= 0 {
 			want = s.SolvedAt[t] + 1
 		}
-		done := evalsPerTrial[t] == want && (evalsPerTrial[t+1] > 0 || (s.Err == nil && t == s.Opts.NumRuns-1))
+		laterTrialSeen := false
+		for _, e := range s.Log {
+			if e.Trial > t {
+				laterTrialSeen = true
+			}
+		}
+		done := evalsPerTrial[t] == want && (laterTrialSeen || evalsPerTrial[t+1] > 0 || s.Err == nil)
 		if !done {
 			break
 		}
@@ -284,6 +290,14 @@ func scenarioC20(c *RunCtx) {
 	if t.Chance("preallocatedTrials", 1, 4) {
 		s.PreTrials = s.Opts.NumRuns + t.Draw("preallocatedTrials.extra", 3)
 		c.Count("probe.preallocated_trials")
+	}
+	// zero generations (and then nothing to solve) is a legal configuration: trials start and finish, nothing is evaluated
+	if t.Chance("zeroGenerations", 1, 16) {
+		s.Opts.NumGenerations = 0
+		for i := range s.SolvedAt {
+			s.SolvedAt[i] = -1
+		}
+		c.Count("probe.zero_generations")
 	}
 	c.Sample = s.Describe()
 	switch mode {
